@@ -12,6 +12,8 @@
 (*     {0, 1/8, 1/2, 1, 2} x l1 ratios {0, 1/4, 1/2, 1}, tolerances        *)
 (*     10^-1 .. 10^-4, budgets {2, 7, 40}; thinned by a fixed hash         *)
 (*     (RunThin) to a spread sample.                                       *)
+(* A third of the instances is also emitted as kind "bcd1" (the multi-task *)
+(* block solver on one target column).                                     *)
 (* C11's generator Gen_LinReg was not reused: its designs carry offsets /  *)
 (* scales / units whose magnitudes leave the 31-bit fixed-point range of   *)
 (* the step model, and the file was being edited concurrently.             *)
@@ -30,8 +32,11 @@ PenRho4 == {pr \in Pens4 \X Rhos4 : pr[1][1] > 0 \/ pr[2] = <<1, 2>>}
 Tols4 == {<<1, 10>>, <<1, 100>>, <<1, 1000>>, <<1, 10000>>}
 Its4 == {2, 7, 40}
 
-Mk(fam, xx, yy, pn, rh, tl, ic, mi) ==
-  [kind |-> "cd",
+\* kind "cd": ElasticNet (coordinate_descent_with_intercept); kind "bcd1": MultiTaskElasticNet with ONE target column
+\* (block_coordinate_descent_with_intercept + duality_gap_mtl), which must run through the same state machine (a block
+\* of one coefficient: block soft threshold = soft threshold, row norms = absolute values)
+Mk(kd, fam, xx, yy, pn, rh, tl, ic, mi) ==
+  [kind |-> kd,
    inp |-> [x |-> xx, y |-> yy, pen |-> pn, l1r |-> rh, tol |-> tl, icpt |-> ic, maxit |-> mi, fam |-> fam]]
 
 GInit ==
@@ -40,13 +45,15 @@ GInit ==
        LET xx == [i \in 1..n |-> [q \in 1..p |-> cs[q][i]]]
            h == InstHash(xx, y, pr, tl, ic, mi)
        IN /\ h % TinyThin = 0
-          /\ case = Mk("tiny", xx, y, pr[1], pr[2], tl, ic, mi)
+          /\ \E kd \in (IF (h \div TinyThin) % 3 = 0 THEN {"cd", "bcd1"} ELSE {"cd"}) :
+               case = Mk(kd, "tiny", xx, y, pr[1], pr[2], tl, ic, mi)
   \/ \E p \in 1..3 :
      \E cs \in [1..p -> Cols4], y \in Ys4, pr \in PenRho4, tl \in Tols4, ic \in BOOLEAN, mi \in Its4 :
        LET xx == [i \in 1..4 |-> [q \in 1..p |-> cs[q][i]]]
            h == InstHash(xx, y, pr, tl, ic, mi)
        IN /\ h % (IF p = 3 THEN 6 * RunThin ELSE IF p = 2 THEN RunThin ELSE (RunThin + 7) \div 8) = 0
-          /\ case = Mk("run", xx, y, pr[1], pr[2], tl, ic, mi)
+          /\ \E kd \in (IF (h \div RunThin) % 3 = 0 THEN {"cd", "bcd1"} ELSE {"cd"}) :
+               case = Mk(kd, "run", xx, y, pr[1], pr[2], tl, ic, mi)
 
 GNext == UNCHANGED case
 Emit == PrintT("CASE " \o ToJson(case))
